@@ -455,6 +455,15 @@ func reifyValue(
 			return reflect.Value{}, err
 		}
 		return pointerize(t, baseType, v), nil
+
+	case reflect.Array:
+		if !isNil(val) {
+			v, err := reifyArray(opts, reflect.New(baseType).Elem(), baseType, val)
+			if err != nil {
+				return reflect.Value{}, err
+			}
+			return pointerize(t, baseType, v), nil
+		}
 	}
 
 	return reifyPrimitive(opts, val, t, baseType)
